@@ -325,6 +325,7 @@ func cmdCheck(args []string) {
 		}
 	}
 	replayRoot = filepath.Join(*outDir, "replays")
+	os.RemoveAll(filepath.Join(replayRoot, pd.ID)) // replay files of earlier runs are stale
 	res := evaluate(p, pd, encs, lists, tier, seed, stats, opts)
 	res.wall = time.Since(t0).Seconds()
 	writeEvidence(*outDir, p, pd, res, tier, seed, stats)
